@@ -4,6 +4,8 @@ PROPS["C17"] = {
             "(each option alone exhaustively, all set, random subsets at 5 densities), env overrides unset/valid/invalid, "
             "logger injected or not, real ApplyDefaults applied twice and every leaf dumped; cfg-meta/-member/-elector/-file: "
             "random main settings + override maps incl. unknown keys and malformed values against the real Get* functions; "
+            "cfg-start: the public constructor dcp.NewDcp on a struct whose hosts name a dead port (120 ms time-outs): what the caller's struct and the maps it shares hold "
+            "afterwards (dump + the derived metadata / membership / elector views) must be exactly what ApplyDefaults alone leaves - start-up (print of the configuration included) alters nothing; "
             "cfg-size: grammar-generated size strings (all unit spellings, blanks, '.'/',', signs) inside the float-exact set "
             "mant*1024^k < 2^53, an exhaustive small grid, plain integers up to int64, a malformed list and mutations; "
             "cfg-envsubst: YAML files with ${VAR} layouts (quoted, plain, chained values, weird names/literals) through the real "
